@@ -17,7 +17,7 @@ Oracles
          for a granularity of 1, however $303 for a granularity of 4"), all hexadecimal; the file's
          creator string; per segment totals equal to the sums of the record lengths.
 """
-from vf import engine, pfile, run
+from vf import asl, corpus, engine, pfile, run
 from vf import c07gen as G
 from vf.gen import composite
 
@@ -26,9 +26,12 @@ RULE = ("case = tool (pbind|plist) x 1-4 generated code files (0-6 data records 
         "all families incl. granularity 2/4 ones, a few undocumented ids $01..$7f, segments 0-9, short "
         "($01..$7f) and long ($81) header forms, long forms with the implied or with another granularity, "
         "lengths from {0,1,2,255,256,511,512,513,8191,8192,8193,16384,65535} and random, addresses 0..$ffffffff, "
-        "entry record at the end / in the middle / absent, several creator strings) x command line (file "
+        "entry record at the end / in the middle / absent, several creator strings; about one case in ten takes "
+        "one input from the golden corpus, assembled by asl; a file may be named twice) x command line (file "
         "names with/without .p, other extension; pbind: -f list of 1-3 ids in decimal/$hex/0xhex/hexh given "
-        "on the command line or through BINDCMD, option before/after the files, -q; plist: -q).  "
+        "on the command line, through BINDCMD, a key file or BINDCMD=@keyfile, options before/between/after "
+        "the files, -q; plist: -q); fixed cases: every documented family, every segment, every boundary "
+        "length, each of the 201 corpus programs under plist and pairwise under pbind.  "
         "non-trivial = pbind: a filter that drops at least one record while >= 2 files hold different CPU "
         "ids, or a zero-length record, or a record longer than 8192 bytes, or entry records in >= 2 files, "
         "or a long-form input record that the short form could express (or vice versa is forced long); "
@@ -70,14 +73,18 @@ def budget(tier):
 # ---------------------------------------------------------------- generator
 
 @composite
-def strategy_(d, tier):
+def strategy_(d, tier, corpus_names):
     tool = d.weighted([(3, "pbind"), (2, "plist")])
     files, cpus = G.gen_files(d)
-    case = dict(tool=tool, files=files, quiet=d.bool(0.25))
+    # now and then one of the inputs is a real program of the golden corpus, assembled by asl
+    if corpus_names and d.weighted([(9, False), (1, True)]):
+        k = d.int(0, len(files) - 1)
+        files[k] = dict(corpus=d.choice(corpus_names), name="c%d.p" % k, arg=d.choice(["c%d.p" % k, "c%d" % k]))
+    case = dict(tool=tool, files=files, quiet=d.weighted([(3, False), (1, True)]))
     if tool == "pbind":
         case["target"] = d.weighted([(4, "out.p"), (3, "out"), (1, "out.bin")])
-        if d.bool(0.6):
-            present = sorted({r["cpu"] for f in files for r in f["recs"] if r["kind"] == "data"})
+        if d.weighted([(2, False), (3, True)]):
+            present = sorted({r["cpu"] for f in files for r in f.get("recs", ()) if r["kind"] == "data"})
             pool = sorted(set(present) | set(cpus))
             k = d.int(1, 3)
             ids = []
@@ -88,35 +95,69 @@ def strategy_(d, tier):
                 elif src == "other":
                     ids.append(d.choice(G.DOC_IDS))
                 else:
-                    ids.append(d.int(1, 0x7f))
+                    ids.append(d.choice([0x80, 0x81, 0xff]) if d.bool(0.3) else d.int(1, 0x7f))
             case["f"] = [[i, d.choice(G.STYLES)] for i in ids]
-            case["f_env"] = d.bool(0.15)
-        case["opt_first"] = d.bool()
+            case["f_via"] = d.weighted([(8, "argv"), (2, "env"), (1, "keyfile"), (1, "env-keyfile")])
+        case["opt_pos"] = d.choice(["last", "first", "mid"])
     return case
 
 
 def strategy(tier):
-    return strategy_(tier)
+    return strategy_(tier, corpus.names())
 
 
-# ---------------------------------------------------------------- shared
+# ---------------------------------------------------------------- materialised inputs
 
-def data_recs(case):
-    return [r for f in case["files"] for r in f["recs"] if r["kind"] == "data"]
+class NoInput(Exception):
+    pass
 
 
-def base_classes(case):
-    recs = data_recs(case)
-    cl = ["tool:" + case["tool"], "files%d" % len(case["files"])]
+def materialise(case):
+    """[dict(name, arg, creator, blob, recs)] - recs are vf.pfile records (payload as bytes).
+    Generated files are serialised by the independent writer; corpus files are assembled by asl and
+    read back by the independent (strict) reader."""
+    out, done = [], {}
+    for f in case["files"]:
+        if f["name"] in done:
+            out.append(dict(done[f["name"]], arg=f["arg"]))
+            continue
+        if "corpus" in f:
+            c = corpus.load(f["corpus"])
+            src = {f["corpus"] + ".asm": c["src"]}
+            src.update(c["extra"])
+            r = asl.assemble(src, main=f["corpus"] + ".asm", args=list(c["flags"]) + ["-i", asl.INCLUDE_DIR])
+            if r.timed_out or r.status != 0 or r.p is None:
+                raise NoInput("corpus program %s did not assemble" % f["corpus"])
+            try:
+                recs = pfile.parse(r.p, strict=True)
+            except pfile.FormatError as e:
+                raise NoInput("corpus program %s: code file rejected by the reader (%s)" % (f["corpus"], e))
+            m = dict(name=f["name"], arg=f["arg"], creator=recs[-1]["text"], blob=r.p, recs=recs[:-1])
+        else:
+            m = dict(name=f["name"], arg=f["arg"], creator=f["creator"], blob=G.file_bytes(f),
+                     recs=G.to_records(f["recs"]))
+        done[f["name"]] = m
+        out.append(m)
+    return out
+
+
+def data_recs(mfiles):
+    return [r for f in mfiles for r in f["recs"] if r["kind"] == "data"]
+
+
+def base_classes(case, mfiles):
+    recs = data_recs(mfiles)
+    cl = ["tool:" + case["tool"], "files%d" % len(mfiles)]
     forms = {r["form"] for r in recs}
     cl.append("forms:" + ("+".join(sorted(forms)) or "none"))
-    if any(G.paylen(r["pay"]) == 0 for r in recs):
+    lens = [len(r["data"]) for r in recs]
+    if 0 in lens:
         cl.append("zero-length")
-    if any(G.paylen(r["pay"]) > PBIND_BUF for r in recs):
+    if any(n > PBIND_BUF for n in lens):
         cl.append("len>8192")
-    if any(G.paylen(r["pay"]) in (8191, 8192, 8193) for r in recs):
+    if any(n in (8191, 8192, 8193) for n in lens):
         cl.append("len~8192")
-    if any(G.paylen(r["pay"]) >= 65532 for r in recs):
+    if any(n >= 65532 for n in lens):
         cl.append("len-max")
     for g in sorted({r["gran"] for r in recs}):
         cl.append("gran%d" % g)
@@ -130,23 +171,33 @@ def base_classes(case):
         cl.append("segment0")
     if len({r["cpu"] for r in recs}) > 1:
         cl.append("multi-cpu")
-    nent = sum(1 for f in case["files"] for r in f["recs"] if r["kind"] == "entry")
+    nent = sum(1 for f in mfiles for r in f["recs"] if r["kind"] == "entry")
     cl.append("entries%d" % min(nent, 3))
-    if any(r["kind"] == "entry" and i != len(f["recs"]) - 1 for f in case["files"] for i, r in enumerate(f["recs"])):
+    if any(r["kind"] == "entry" and i != len(f["recs"]) - 1 for f in mfiles for i, r in enumerate(f["recs"])):
         cl.append("entry-not-last")
-    if any(not f["recs"] for f in case["files"]):
+    if any(not f["recs"] for f in mfiles):
         cl.append("empty-file")
+    if any(len(f["recs"]) > 8 for f in mfiles):
+        cl.append("many-records")
+    if len({f["name"] for f in mfiles}) < len(mfiles):
+        cl.append("file-twice")
+    if any("corpus" in f for f in case["files"]):
+        cl.append("corpus-file")
     if any(r["addr"] >= 0xffff0000 for r in recs):
         cl.append("addr-top")
     if case.get("quiet"):
         cl.append("quiet")
-    if any(f["arg"] != f["name"] for f in case["files"]):
+    if any(f["arg"] != f["name"] for f in mfiles):
         cl.append("arg-without-ext")
     return cl
 
 
-def write_inputs(d, case):
-    run.write_files(d, {f["name"]: G.file_bytes(f) for f in case["files"]})
+def write_inputs(d, case, mfiles):
+    files = {f["name"]: f["blob"] for f in mfiles}
+    if "f" in case and case.get("f_via", "argv").endswith("keyfile"):
+        # key file (assembler-usage.md): options written as on the command line, switch and argument in one line
+        files["bind.key"] = "-f " + ",".join(G.number(i, s) for i, s in case["f"]) + "\n"
+    run.write_files(d, files)
 
 
 # ---------------------------------------------------------------- pbind
@@ -155,14 +206,26 @@ def pbind_argv(case):
     opts, env = [], {}
     if "f" in case:
         lst = ",".join(G.number(i, s) for i, s in case["f"])
-        if case.get("f_env"):
+        via = case.get("f_via", "argv")
+        if via == "env":
             env["BINDCMD"] = "-f " + lst
+        elif via == "keyfile":
+            opts += ["@bind.key"]
+        elif via == "env-keyfile":
+            env["BINDCMD"] = "@bind.key"
         else:
             opts += ["-f", lst]
     if case.get("quiet"):
         opts += ["-q"]
     names = [f["arg"] for f in case["files"]] + [case["target"]]
-    argv = ["pbind"] + (opts + names if case.get("opt_first") else names + opts)
+    pos = case.get("opt_pos", "last")
+    if pos == "first":
+        argv = ["pbind"] + opts + names
+    elif pos == "mid":
+        k = len(names) // 2
+        argv = ["pbind"] + names[:k] + opts + names[k:]
+    else:
+        argv = ["pbind"] + names + opts
     return argv, env
 
 
@@ -172,11 +235,11 @@ def sem(r):
     return ("entry", r["addr"])
 
 
-def pbind_expected(case):
+def pbind_expected(case, mfiles):
     ids = {i for i, _ in case["f"]} if "f" in case else None
     exp, dropped = [], 0
-    for f in case["files"]:
-        for r in G.to_records(f["recs"]):
+    for f in mfiles:
+        for r in f["recs"]:
             if r["kind"] == "data" and ids is not None and r["cpu"] not in ids:
                 dropped += 1
                 continue
@@ -218,13 +281,12 @@ def validate_output(buf, exp):
     return recs, None
 
 
-def execute_pbind(case):
-    classes = base_classes(case)
-    exp, dropped = pbind_expected(case)
-    recs = data_recs(case)
+def execute_pbind(case, mfiles):
+    classes = base_classes(case, mfiles)
+    exp, dropped = pbind_expected(case, mfiles)
+    recs = data_recs(mfiles)
     argv, env = pbind_argv(case)
     target = case["target"] if "." in case["target"] else case["target"] + ".p"
-    # classes / non-trivial key
     if "f" not in case:
         feff = "nofilter"
     elif dropped == 0:
@@ -237,18 +299,17 @@ def execute_pbind(case):
     if "f" in case:
         classes.append("filter-ids%d" % len(case["f"]))
         classes += sorted({"num:" + s for _, s in case["f"]})
-        if case.get("f_env"):
-            classes.append("filter-via-BINDCMD")
-    cpus_by_file = [{r["cpu"] for r in f["recs"] if r["kind"] == "data"} for f in case["files"]]
-    diffcpu = len(case["files"]) >= 2 and len(set().union(*cpus_by_file)) >= 2
+        classes.append("filter-via-" + case.get("f_via", "argv"))
+    cpus_by_file = [{r["cpu"] for r in f["recs"] if r["kind"] == "data"} for f in mfiles]
+    diffcpu = len(mfiles) >= 2 and len(set().union(*cpus_by_file)) >= 2
     nt = []
     if dropped and diffcpu:
         nt.append("filter-drops")
-    if any(G.paylen(r["pay"]) == 0 for r in recs):
+    if any(len(r["data"]) == 0 for r in recs):
         nt.append("zero")
-    if any(G.paylen(r["pay"]) > PBIND_BUF for r in recs):
+    if any(len(r["data"]) > PBIND_BUF for r in recs):
         nt.append("large")
-    if sum(1 for f in case["files"] if any(r["kind"] == "entry" for r in f["recs"])) >= 2:
+    if sum(1 for f in mfiles if any(r["kind"] == "entry" for r in f["recs"])) >= 2:
         nt.append("multi-entry")
     if any(r["form"] == "long" and r["seg"] == 1 and r["gran"] == pfile.implied_gran(r["cpu"], 1) for r in recs):
         nt.append("long-could-be-short")
@@ -258,14 +319,14 @@ def execute_pbind(case):
     key = None
     if nt:
         forms = "+".join(sorted({r["form"] for r in recs}))
-        key = "|".join(["pbind", str(len(case["files"])), forms, feff, ",".join(nt),
+        key = "|".join(["pbind", str(len(mfiles)), forms, feff, ",".join(nt),
                         "g" + "".join(str(g) for g in sorted({r["gran"] for r in recs})),
                         "e%d" % sum(1 for t in exp if t[0] == "entry"),
-                        "q" if case.get("quiet") else "", "env" if case.get("f_env") else "",
-                        "of" if case.get("opt_first") else "", case["target"]])
+                        "q" if case.get("quiet") else "", case.get("f_via", ""),
+                        case.get("opt_pos", "last"), case["target"]])
     with run.Work("c07") as d:
-        write_inputs(d, case)
-        r = run.run(argv, d, env=env or None)
+        write_inputs(d, case, mfiles)
+        r = run.run(argv, d, env=env or None, timeout=10.0, cpu=5, fsize=1 << 26)
         if r.timed_out:
             return engine.inconclusive("timeout", classes)
         got = run.read(d, target)
@@ -281,10 +342,6 @@ def execute_pbind(case):
         return engine.bad("pbind output is not a well-formed code file: " + why, key, classes,
                           head=got[:64].hex(), **detail)
     gots = [sem(x) for x in out[:-1]]
-    if any(a["form"] != b["form"] for a, b in zip([x for x in out if x["kind"] == "data"],
-                                                  [x for x in G.to_records([q for f in case["files"] for q in f["recs"]])
-                                                   if x["kind"] == "data"])) and dropped == 0:
-        classes.append("form-changed")
     if gots != exp:
         n = min(len(gots), len(exp))
         i = next((i for i in range(n) if gots[i] != exp[i]), n)
@@ -292,39 +349,41 @@ def execute_pbind(case):
                           % (i, brief(gots[i]) if i < len(gots) else "<end>",
                              brief(exp[i]) if i < len(exp) else "<end>", len(gots), len(exp)),
                           key, classes, **detail)
+    if dropped == 0 and [x["form"] for x in out if x["kind"] == "data"] != [x["form"] for x in recs]:
+        classes.append("form-changed")
     return engine.ok(key, classes)
 
 
 # ---------------------------------------------------------------- plist
 
-def execute_plist(case):
-    classes = base_classes(case)
-    recs = data_recs(case)
-    argv = ["plist"] + (["-q"] if case.get("quiet") else []) + [f["arg"] for f in case["files"]]
+def execute_plist(case, mfiles):
+    classes = base_classes(case, mfiles)
+    recs = data_recs(mfiles)
+    argv = ["plist"] + (["-q"] if case.get("quiet") else []) + [f["arg"] for f in mfiles]
     sums = {}
     for r in recs:
-        sums[r["seg"]] = sums.get(r["seg"], 0) + G.paylen(r["pay"])
+        sums[r["seg"]] = sums.get(r["seg"], 0) + len(r["data"])
     nt = []
-    if any(r["gran"] > 1 and G.paylen(r["pay"]) for r in recs):
+    if any(r["gran"] > 1 and len(r["data"]) for r in recs):
         nt.append("gran>1")
-    if any(G.paylen(r["pay"]) == 0 for r in recs):
+    if any(len(r["data"]) == 0 for r in recs):
         nt.append("zero")
     if sum(1 for v in sums.values() if v) >= 2:
         nt.append("multi-segment-sums")
-    if len(case["files"]) >= 2:
+    if len(mfiles) >= 2:
         nt.append("multi-file")
     classes += ["nt:" + x for x in nt]
     key = None
     if nt:
-        key = "|".join(["plist", str(len(case["files"])), ",".join(nt),
+        key = "|".join(["plist", str(len(mfiles)), ",".join(nt),
                         "g" + "".join(str(g) for g in sorted({r["gran"] for r in recs})),
                         "s" + "".join(str(s) for s in sorted(sums)),
                         "+".join(sorted({r["form"] for r in recs})),
-                        "e%d" % min(3, sum(1 for f in case["files"] for r in f["recs"] if r["kind"] == "entry")),
+                        "e%d" % min(3, sum(1 for f in mfiles for r in f["recs"] if r["kind"] == "entry")),
                         "q" if case.get("quiet") else ""])
     with run.Work("c07") as d:
-        write_inputs(d, case)
-        r = run.run(argv, d)
+        write_inputs(d, case, mfiles)
+        r = run.run(argv, d, timeout=10.0, cpu=5)
         if r.timed_out:
             return engine.inconclusive("timeout", classes)
     detail = dict(argv=argv, status=r.status, signal=r.signal, stderr=r.err[-400:], stdout=r.out[-1500:])
@@ -332,15 +391,17 @@ def execute_plist(case):
         return engine.bad("plist killed by signal %d" % r.signal, key, classes, **detail)
     if r.status != 0:
         return engine.bad("plist exit status %s on well-formed input files" % r.status, key, classes, **detail)
-    multi = len(case["files"]) > 1
+    multi = len(mfiles) > 1
     try:
-        lst = G.parse_plist(r.out, {f["name"] for f in case["files"]} if multi else set())
+        lst = G.parse_plist(r.out, {f["name"] for f in mfiles} if multi else set())
     except G.ListingError as e:
         return engine.bad("plist output does not fit the table grammar: %s" % e, key, classes, **detail)
-    if len(lst["files"]) != len(case["files"]):
+    if lst["banner"] == bool(case.get("quiet")):
+        classes.append("banner-unexpected")          # counted only: the banner is not part of the property
+    if len(lst["files"]) != len(mfiles):
         return engine.bad("listing has %d file sections (each closed by a creator line), %d files given"
-                          % (len(lst["files"]), len(case["files"])), key, classes, **detail)
-    for f, sec in zip(case["files"], lst["files"]):
+                          % (len(lst["files"]), len(mfiles)), key, classes, **detail)
+    for f, sec in zip(mfiles, lst["files"]):
         if multi and sec["name"] != f["name"]:
             return engine.bad("section of file %s is headed %r" % (f["name"], sec["name"]), key, classes, **detail)
         if sec["creator"] != f["creator"]:
@@ -358,7 +419,7 @@ def execute_plist(case):
                     return engine.bad("%s: entry point %08X shown, is %08X" % (where, row["addr"], rec["addr"]),
                                       key, classes, **detail)
                 continue
-            n = G.paylen(rec["pay"])
+            n = len(rec["data"])
             if rec["cpu"] in G.FAMILY and row["fam"] not in G.FAMILY[rec["cpu"]][1]:
                 return engine.bad("%s: id $%02x (%s) shown as family %r" % (where, rec["cpu"], G.FAMILY[rec["cpu"]][0],
                                                                             row["fam"]), key, classes, **detail)
@@ -394,16 +455,21 @@ def execute_plist(case):
 
 
 def execute(case):
+    try:
+        mfiles = materialise(case)
+    except NoInput as e:
+        return engine.inconclusive(str(e), ["tool:" + case["tool"], "corpus-file"])
     if case["tool"] == "pbind":
-        return execute_pbind(case)
-    return execute_plist(case)
+        return execute_pbind(case, mfiles)
+    return execute_plist(case, mfiles)
 
 
 # ---------------------------------------------------------------- presentation, fixed cases
 
 def show(case):
     s = dict(tool=case["tool"],
-             files=[dict(arg=f["arg"], recs=[(r["form"][0], "$%02x" % r["cpu"], r["seg"], r["gran"], "$%x" % r["addr"],
+             files=[dict(arg=f["arg"], corpus=f["corpus"]) if "corpus" in f else
+                    dict(arg=f["arg"], recs=[(r["form"][0], "$%02x" % r["cpu"], r["seg"], r["gran"], "$%x" % r["addr"],
                                               G.paylen(r["pay"])) if r["kind"] == "data" else ("entry", "$%x" % r["addr"])
                                              for r in f["recs"]]) for f in case["files"]])
     if case["tool"] == "pbind":
@@ -441,24 +507,54 @@ def fixed_cases(tier):
     out.append(dict(tool="plist", quiet=False,
                     files=[_file("seg.p", [_rec(0x51, 0x10 * s, s + 1, seg=s) for s in range(0, 10)])]))
     # pbind: plain concatenation, filter forms, quiet, names without extension
-    out.append(dict(tool="pbind", files=two, quiet=False, target="out.p", opt_first=False))
-    out.append(dict(tool="pbind", files=two, quiet=True, target="out", opt_first=True))
+    out.append(dict(tool="pbind", files=two, quiet=False, target="out.p", opt_pos="last"))
+    out.append(dict(tool="pbind", files=two, quiet=True, target="out", opt_pos="first"))
     out.append(dict(tool="pbind", files=[_file("a.p", two[0]["recs"], arg="a"), two[1]], quiet=False, target="out",
-                    opt_first=False))
+                    opt_pos="last"))
     for sty in G.STYLES:
-        out.append(dict(tool="pbind", files=two, quiet=False, target="out.p", opt_first=False,
-                        f=[[0x11, sty], [0x31, sty]], f_env=False))
-    out.append(dict(tool="pbind", files=two, quiet=False, target="out.p", opt_first=True, f=[[0x70, "dollar"]], f_env=True))
-    out.append(dict(tool="pbind", files=two, quiet=False, target="out.p", opt_first=True, f=[[0x7f, "h"]], f_env=False))
+        out.append(dict(tool="pbind", files=two, quiet=False, target="out.p", opt_pos="last",
+                        f=[[0x11, sty], [0x31, sty]], f_via="argv"))
+    out.append(dict(tool="pbind", files=two, quiet=False, target="out.p", opt_pos="first", f=[[0x70, "dollar"]], f_via="env"))
+    out.append(dict(tool="pbind", files=two, quiet=False, target="out.p", opt_pos="first", f=[[0x7f, "h"]], f_via="argv"))
+    out.append(dict(tool="pbind", files=two, quiet=False, target="out.p", opt_pos="mid", f=[[0x51, "0x"], [0x76, "dec"]], f_via="keyfile"))
+    out.append(dict(tool="pbind", files=two, quiet=True, target="out.p", opt_pos="last", f=[[0x31, "h"]], f_via="env-keyfile"))
+    out.append(dict(tool="pbind", files=two, quiet=False, target="out.p", opt_pos="last", f=[[0x81, "dollar"]], f_via="argv"))
     # pbind: lengths around the copy buffer and the maximum, every boundary length
     for n in G.LEN_BOUNDARY:
-        out.append(dict(tool="pbind", quiet=False, target="out.p", opt_first=False,
+        out.append(dict(tool="pbind", quiet=False, target="out.p", opt_pos="last",
                         files=[_file("l.p", [_rec(0x11, 0x1000, n), _rec(0x51, 0, 3, form="short")])]))
         out.append(dict(tool="plist", quiet=True, files=[_file("l.p", [_rec(0x11, 0x1000, n), _rec(0x70, 0, n - n % 2)])]))
     # pbind: long form whose granularity is not the implied one must stay long
-    out.append(dict(tool="pbind", quiet=False, target="out.p", opt_first=False,
+    out.append(dict(tool="pbind", quiet=False, target="out.p", opt_pos="last",
                     files=[_file("g.p", [_rec(0x11, 0x10, 8, gran=2), _rec(0x70, 0x10, 8, gran=1), _rec(0x76, 0, 8, gran=4)])]))
+    # the golden corpus, assembled by asl: every program listed alone, neighbours bound pairwise with a filter
+    # naming the first program's families (ids read from the strictly parsed code file at run time are not
+    # available here, so the filter cases use the documented id of well-known test programs)
+    names = corpus.names()
+    for i, n in enumerate(names):
+        out.append(dict(tool="plist", quiet=bool(i % 2), files=[dict(corpus=n, name="c0.p", arg="c0.p" if i % 3 else "c0")]))
+        m = names[(i + 1) % len(names)]
+        out.append(dict(tool="pbind", quiet=bool(i % 4 == 0), target="out.p", opt_pos=["last", "first", "mid"][i % 3],
+                        files=[dict(corpus=n, name="c0.p", arg="c0.p"), dict(corpus=m, name="c1.p", arg="c1")]))
+    for n, cid in (("t_z80syntax", 0x51), ("t_6502u", 0x11), ("t_z8000", 0x34), ("t_avr", 0x3b), ("t_3201x", 0x74)):
+        if n in names:
+            out.append(dict(tool="pbind", quiet=False, target="out", opt_pos="last", f=[[cid, "dollar"]], f_via="argv",
+                            files=[dict(corpus=n, name="c0.p", arg="c0"), dict(corpus=names[0], name="c1.p", arg="c1.p"),
+                                   dict(corpus=n, name="c0.p", arg="c0.p")]))
     return out
 
 
 KNOWN = {}
+
+# classes every run must contain in a healthy fraction (of all cases); reported in the evidence
+WANTED = {"tool:pbind": 0.4, "tool:plist": 0.25, "forms:long+short": 0.4, "zero-length": 0.1, "len>8192": 0.1,
+          "len~8192": 0.05, "len-max": 0.03, "gran2": 0.15, "gran4": 0.08, "gran-not-implied": 0.05,
+          "multi-segment": 0.2, "filter:drops-some": 0.08, "filter:drops-all": 0.03, "filter:keeps-all": 0.03,
+          "filter:nofilter": 0.1, "entries2": 0.05, "entry-not-last": 0.03, "quiet": 0.1, "arg-without-ext": 0.2,
+          "corpus-file": 0.03, "form-changed": 0.05, "nt:code-must-stay-long": 0.02, "nt:multi-segment-sums": 0.08}
+
+
+def coverage_extra(tier, classes):
+    n = max(1, classes.get("tool:pbind", 0) + classes.get("tool:plist", 0))
+    low = {k: round(classes.get(k, 0) / n, 4) for k, v in WANTED.items() if classes.get(k, 0) / n < v}
+    return dict(generator_selftest=dict(wanted=len(WANTED), below_minimum=low))
